@@ -1,5 +1,7 @@
 import CalVerif.Prim.Res
 import CalVerif.Model.CellFormat
+import CalVerif.Model.CellError
+import CalVerif.Gen.XlsxErrors
 import CalVerif.Model.Range
 /-! Model of the xlsx worksheet reader (`/repo/src/xlsx/mod.rs`, `/repo/src/xlsx/cells_reader.rs`).
 
@@ -215,25 +217,16 @@ inductive Val where
   | str (s : Bytes)
   | shared (s : Bytes)
   | bool (b : Bool)
-  | error (code : Nat)
+  | error (kind : CellErrorType)
   | dateIso (s : Bytes)
   | num (text : Bytes) (fmt : CellFormat) (strict : Bool)
   deriving Repr, DecidableEq
 
 instance : Inhabited Val := ⟨.empty⟩
 
-/-- `impl FromStr for CellErrorType`: index of the variant in declaration order of the match
-    (`Div0, NA, Name, Null, Num, Ref, Value`) -/
-def errorTable : List (Bytes × Nat) :=
-  [([35, 68, 73, 86, 47, 48, 33], 0),   -- "#DIV/0!"
-   ([35, 78, 47, 65], 1),               -- "#N/A"
-   ([35, 78, 65, 77, 69, 63], 2),       -- "#NAME?"
-   ([35, 78, 85, 76, 76, 33], 3),       -- "#NULL!"
-   ([35, 78, 85, 77, 33], 4),           -- "#NUM!"
-   ([35, 82, 69, 70, 33], 5),           -- "#REF!"
-   ([35, 86, 65, 76, 85, 69, 33], 6)]   -- "#VALUE!"
-
-def parseError (v : Bytes) : Option Nat := (errorTable.find? (fun e => e.1 == v)).map (·.2)
+/-- `impl FromStr for CellErrorType` (`src/xlsx/mod.rs`): the arms are the generated table
+    `Gen.xlsxErrorFromStr`, re-extracted from the source on every run -/
+def parseError (v : Bytes) : Option CellErrorType := (Gen.xlsxErrorFromStr.find? (fun e => e.1 == v)).map (·.2)
 
 /-- what the reader is given besides the events -/
 structure Cfg where
